@@ -792,6 +792,28 @@ def check(assumptions, goal, timeout_ms=10000, seed=0, want_model=True, backends
   return {"status": "unknown", "backend": "all", "time_s": time.time() - t0, "reason": reason}
 
 
+def check_quantified(assumptions, goal, timeout_ms=20000, seed=0, want_model=True):
+  """obligations of wpv/hoare.py: quantified invariants over z3 arrays. z3 (E-matching + MBQI) first, then the two
+  external solvers on the SMT-LIB text. `unsat` is a proof; `sat` is a model of the hypotheses and the negated goal."""
+  t0 = time.time()
+  r = _solve_once(list(assumptions), goal, timeout_ms, seed, None, want_model, fresh=True)
+  if r["status"] in ("sat", "unsat"):
+    r.update(backend="z3-5.1(api) [quantified]", time_s=time.time() - t0)
+    return r
+  reason = r.get("reason")
+  s = z3.Solver()
+  for a in assumptions:
+    s.add(a)
+  s.add(z3.Not(goal))
+  smt2 = s.to_smt2()
+  for be in ("z3old", "cvc5"):
+    rr = run_external(be, smt2, timeout_ms)
+    if rr["status"] == "unsat":
+      rr["time_s"] = time.time() - t0
+      return rr
+  return {"status": "unknown", "backend": "z3-5.1(api), z3-4.8.12, cvc5", "time_s": time.time() - t0, "reason": reason}
+
+
 def run_external(be, smt2, timeout_ms):
   with tempfile.NamedTemporaryFile("w", suffix=".smt2", delete=False, dir=os.environ.get("WPV_SCRATCH", None)) as f:
     f.write(smt2)
